@@ -42,7 +42,7 @@ func init() {
 	mc.Register(&mc.Property{
 		ID:    "C07",
 		Level: "fault_enumeration",
-		Rule: "E3 fault enumeration: (truncation) every frame of a 40-frame alphabet (4 message kinds × body lengths 0..200) × EVERY cut point k < len(frame) × reader chunkings {whole, 1 byte at a time; thorough: every single extra deviation}: never success, n = k, cause io.EOF for k=0, io.ErrUnexpectedEOF otherwise, either one for k=32; " +
+		Rule: "E3 fault enumeration: (truncation) every frame of a 40-frame alphabet (4 message kinds × body lengths 0..200) × EVERY cut point k < len(frame) × reader chunkings {whole, 1 byte at a time; thorough: every single extra deviation}, and four frames with bodies of 1..3 MiB × cut points within ±1 of m·2^p (p = 9..22, m = 1..3, measured from the frame and from the body start) × {whole, 4 KiB, 64 KiB chunks}: never success, n = k, cause io.EOF for k=0, io.ErrUnexpectedEOF otherwise, either one for k=32; " +
 			"(corrupt header, in a memory-limited worker process) header-size field × body-size field alphabets (0, len±1, 2^31, 2^32, 2^40, 2^47, 2^48, 2^62, 2^63-1, 2^63, 2^63+1, 2^64-1 …) × version bytes {ASCII, 0xff, NUL} × {0, 5, all} body bytes present: header size ≠ 32 ⇒ ErrInvalidHeaderSize after exactly 32 bytes; otherwise success iff the declared body is completely present; never a panic, never a dead process; ReadHeader on every prefix 0..40 of arbitrary bytes returns normally; " +
 			"(writer faults) every frame × EVERY byte budget k ≤ len(frame) × {partial write with error, refusal with count 0}: Marshal returns that error and the count of accepted bytes, which are exactly frame[:count]; (read errors) a non-EOF error injected at every offset, alone or together with the last bytes, under whole and 1-byte chunkings: no success unless the frame was delivered completely, n = bytes delivered. A case is one (frame, fault point, mode); non-trivial when the fault point is inside the frame (0 < k < len).",
 		Assumptions: []string{
@@ -223,6 +223,12 @@ func c07CorruptCases() []c07Corrupt {
 			}
 		}
 	}
+	// declared sizes beyond the stream with MiB-sized amounts of body actually present
+	for _, bs := range []uint64{3 << 20, 1 << 31, 1 << 40, 1<<63 - 1} {
+		for _, av := range []int{1<<20 - 1, 1 << 20, 1<<20 + 1, 2 << 20, 2<<20 + 1} {
+			out = append(out, c07Corrupt{32, bs, "1.0.0", av, fmt.Sprintf("hs=32 bs=%d ver=312e302e30 body_bytes_present=%d", bs, av)})
+		}
+	}
 	return out
 }
 
@@ -231,6 +237,9 @@ func c07CorruptBytes(cc c07Corrupt) []byte {
 	copy(h, cc.Ver)
 	binary.LittleEndian.PutUint64(h[16:], cc.HS)
 	binary.LittleEndian.PutUint64(h[24:], cc.BS)
+	if cc.Avail > c07Body {
+		return append(h, c06Payload(cc.Avail)...)
+	}
 	return append(h, c06Payload(c07Body)[:cc.Avail]...)
 }
 
@@ -446,6 +455,53 @@ func c07Run(c *mc.Ctx) {
 			c.ForceSample(c07Case{Frame: &fc, Cut: 40, Uniform: 1, Desc: "truncation"})
 			c.ForceSample(c07Case{Frame: &fc, Budget: 33, Mode: "partial", Desc: "writer fault"})
 		}
+	})
+	// large frames: bodies beyond 1 MiB (where an implementation is likely to switch from an eager
+	// to an incremental read) with cut points around every power of two and every MiB boundary
+	bigs := []c06Frame{{Kind: "legacy", Payload: 1<<20 + 1}, {Kind: "legacy", Payload: 2<<20 + 5}, {Kind: "pb", Payload: 1<<20 - 3}, {Kind: "pbv", Payload: 3 << 20, Version: "9.9.9"}}
+	type bigJob struct {
+		f   c06Frame
+		cut int
+		uni int
+	}
+	var bj []bigJob
+	for _, f := range bigs {
+		l := len(c06Wire(f))
+		seen := map[int]bool{}
+		add := func(k int) {
+			if k >= 0 && k < l && !seen[k] {
+				seen[k] = true
+				for _, u := range []int{0, 4096, 1 << 16} {
+					bj = append(bj, bigJob{f, k, u})
+				}
+			}
+		}
+		for _, k := range []int{0, 1, 31, 32, 33, l - 1, l - 2} {
+			add(k)
+		}
+		for p := uint(9); p <= 22; p++ {
+			for m := 1; m <= 3; m++ {
+				for d := -1; d <= 1; d++ {
+					add(32 + m<<p + d) // measured from the start of the body
+					add(m<<p + d)      // measured from the start of the frame
+				}
+			}
+		}
+	}
+	c.Expect(int64(len(bj)))
+	c.Par(len(bj), func(i int) {
+		j := bj[i]
+		fc := j.f
+		var env *mc.Env
+		if j.uni == 0 {
+			env = mc.NewEnv(nil)
+		}
+		g, w := c07Trunc(j.f, j.cut, env, j.uni)
+		if g != w {
+			c.Fail(6<<48|int64(i), "truncation", "truncation/large", c07Case{Frame: &fc, Cut: j.cut, Uniform: j.uni}, g, w)
+		}
+		c.Count(1, 1)
+		c.Add("large_frame_truncation_cases", 1)
 	})
 	// ReadHeader on arbitrary prefixes
 	for _, fill := range []int{'A', 0xff, 0x00} {
